@@ -330,6 +330,12 @@ def _flags(kw):
     return dict((k, kw[k]) for k, _ in FLAG_DEFAULTS if k in kw)
 
 
+def _path_spread(spec):
+    """longest - shortest root-to-tip path of a spec tree (missing length = 0)"""
+    d = [x for n, x, k in ref.root_distances(spec) if not n[3]]
+    return (max(d) - min(d)) if d else 0.0
+
+
 class Frame(object):
     """what the caller of one hooked entry point asked for."""
 
@@ -361,6 +367,7 @@ class Monitor(object):
         self.frames = []
         self.merge_depth = 0
         self.last_exc = None     # the exception an inner hook has already judged
+        self.rejected = []       # documented UltrametricityError refusals (tree not a member of the multiset)
         self.seen_trees = {}     # id(tree) -> tree: trees that have been counted before (object history)
         self.own_call = 0        # >0 while the monitor itself queries the library
         self.force_deep = False  # read the annotations as well as the attributes (set by the harness)
@@ -467,6 +474,9 @@ class Monitor(object):
 
     def judged_unchanged(self, fr, tree):
         return id(tree) in fr.judged_cons and fr.prints.get(id(tree)) == self.fingerprint(tree)
+
+    def was_documented_rejection(self, exc):
+        return any(exc is x for x in self.rejected)
 
     def report_exc(self, op, exc, detail=None):
         if exc is self.last_exc:
@@ -699,6 +709,18 @@ class Monitor(object):
     def count_post(self, snap, sd, args, kw, result, exc):
         ctx = self.ctx
         if exc is not None:
+            # documented refusal: a collection that tracks node ages rejects a tree whose root-to-tip paths differ.
+            # The tree is then NOT a member of the multiset: the reference is not advanced, and everything the
+            # collection reports afterwards is judged against the accepted trees only (seeded change C05d).
+            r = self.ref_of(sd)
+            if (type(exc).__name__ == "UltrametricityError" and r is not None and not r.ignore_ages and snap is not None
+                    and _path_spread(snap[0]) > 1e-3):
+                self.last_exc = exc
+                self.rejected.append(exc)
+                ctx.ev("documented-rejection:non-ultrametric-tree-offered-to-a-collection-tracking-ages")
+                if r.queries:
+                    r.pending_invalidation = True
+                return
             self.report_exc("count_splits_on_tree", exc)
             return
         r = self.ref_of(sd)
